@@ -124,13 +124,18 @@ HIDDEN = {
 }
 
 
+CACHE_VALUE = '<lazily recomputed cache: value not compared, presence is>'
+
+
 def obj_items(x):
-    """(name, value) pairs of an instance, sorted by name."""
+    """(name, value) pairs of the COMPLETE __dict__ of an instance, sorted by name.  Every attribute name takes part in
+    the comparison (an attribute that exists before saving and is missing after loading, or vice versa, is a
+    difference); only the *value* of the declared caches is replaced by a fixed placeholder."""
     d = getattr(x, '__dict__', None)
     if d is None:
         return None
     hid = set(hidden_attrs(x))
-    return sorted((k, v) for k, v in d.items() if k not in hid)
+    return sorted((k, CACHE_VALUE if k in hid else v) for k, v in d.items())
 
 
 def bound_method_parts(x):
@@ -155,6 +160,7 @@ class Compare:
         self.n = 0
         self.shared = 0
         self.in_obj = 0     # > 0 while below a class instance (attribute values)
+        self.lattices = []  # (original, loaded, path) of every lattice met: interface-level observations afterwards
 
     def bad(self, path, msg):
         if len(self.problems) < 8:
@@ -261,6 +267,8 @@ class Compare:
         # instances
         if self.pair(a, b, path, True):
             return
+        if any(c.__name__ == 'Lattice' and c.__module__ == 'tenpy.models.lattice' for c in type(a).__mro__):
+            self.lattices.append((a, b, path))
         if self.flat and type(a).__name__ in ('LegCharge', 'LegPipe'):
             self.cmp_leg_flat(a, b, path)
             return
@@ -340,6 +348,51 @@ def dense_checks(a, b, path, flat):
     except Exception as e:
         probs.append('dense check raised %s: %s' % (type(e).__name__, str(e)[:200]))
     return ['%s: %s' % (path, p) for p in probs]
+
+
+def _observe(f):
+    try:
+        v = f()
+    except Exception as e:
+        return ('raised', type(e).__name__)
+    if isinstance(v, np.ndarray):
+        return ('array', v.shape, v.tolist())
+    if isinstance(v, (tuple, list)):
+        return ('seq', [x.item() if isinstance(x, np.generic) else (x.tolist() if isinstance(x, np.ndarray) else x) for x in v])
+    if isinstance(v, np.generic):
+        return ('value', v.item())
+    return ('value', v)
+
+
+def lattice_observations(lat):
+    """what the documented interface of a lattice shows (independent of how the attributes are stored); the optional
+    attribute segment_first_last is read the way the segment simulations read it (AttributeError is an observation)."""
+    n = _observe(lambda: int(lat.N_sites))
+    idx = np.arange(n[1]) if n[0] == 'value' else np.arange(0)
+    return {
+        'N_sites': n, 'N_cells': _observe(lambda: int(lat.N_cells)), 'Ls': _observe(lambda: tuple(int(i) for i in lat.Ls)),
+        'shape': _observe(lambda: tuple(int(i) for i in lat.shape)), 'dim': _observe(lambda: int(lat.dim)),
+        'bc_MPS': _observe(lambda: str(lat.bc_MPS)), 'bc': _observe(lambda: [bool(b) for b in lat.bc]),
+        'bc_shift': _observe(lambda: None if lat.bc_shift is None else np.asarray(lat.bc_shift)),
+        'boundary_conditions': _observe(lambda: [b if isinstance(b, str) else int(b) for b in lat.boundary_conditions]),
+        'order': _observe(lambda: np.asarray(lat.order)),
+        'segment_first_last': _observe(lambda: tuple(int(i) for i in lat.segment_first_last)),
+        'mps2lat_idx': _observe(lambda: np.asarray(lat.mps2lat_idx(idx))),
+        'lat2mps_idx': _observe(lambda: np.asarray(lat.lat2mps_idx(lat.mps2lat_idx(idx)))),
+        'mps_sites': _observe(lambda: [type(s).__name__ + ':%d' % s.dim for s in lat.mps_sites()]),
+        'position': _observe(lambda: np.asarray(lat.position(lat.mps2lat_idx(idx)))),
+        'pairs': _observe(lambda: sorted(lat.pairs.keys())),
+    }
+
+
+def lattice_checks(pairs):
+    probs = []
+    for a, b, path in pairs:
+        oa, ob = lattice_observations(a), lattice_observations(b)
+        for k in oa:
+            if oa[k] != ob[k]:
+                probs.append('%s: lattice observation %s: %s became %s' % (path or '<root>', k, repr(oa[k])[:120], repr(ob[k])[:120]))
+    return probs[:6]
 
 
 def sanity_walk(b, seen, out, depth=0):
@@ -536,7 +589,8 @@ def run_object(spec):
         try:
             c = Compare(flat=flat)
             c.cmp(obj, loaded)
-            out['problems'] = c.problems + dense_checks(obj, loaded, '<root>', flat)
+            out['problems'] = c.problems + dense_checks(obj, loaded, '<root>', flat) + lattice_checks(c.lattices)
+            out['lattices'] = len(c.lattices)
             out['compared'] = c.n
             out['shared'] = c.shared
             so = {'n': 0, 'bad': []}
